@@ -915,6 +915,42 @@ theorem attrRead_enumlike_at {F} (ops : FloatOps F) (cfg : LexCfg) (lookup : Int
     simpa [IStream.ofBytes] using ws_good l0 sp1 c t true h2 hc
   rcases hk with rfl | rfl | ⟨items, rfl⟩ <;> simp only [attrRead, hpre, peekC_good, hcond] <;> rfl
 
+/-- … and either state of `skipws` -/
+theorem attrRead_dollar_at_sk {F} (ops : FloatOps F) (cfg : LexCfg) (lookup : Int → RefLookup) (k : Kind) (nullable : Bool)
+    (l0 sp1 t : List Byte) (sk : Bool) (h2 : sp1.all isSpace = true) :
+    attrRead ops cfg lookup k nullable ({ left := l0, right := sp1 ++ 36 :: t, eof := false, fail := false, bad := false, skipws := sk } : IStream) =
+      .ok ⟨if nullable then (if cfg.dollarKeepsError then (checkRemainingInput cfg (some attrDelims) { left := 36 :: (sp1.reverse ++ l0), right := t, eof := false, fail := false, bad := false, skipws := sk } .null).2 else .null) else .incomplete,
+           .unset, (checkRemainingInput cfg (some attrDelims) { left := 36 :: (sp1.reverse ++ l0), right := t, eof := false, fail := false, bad := false, skipws := sk } .null).1⟩ := by
+  have hpre : ({ left := l0, right := sp1 ++ 36 :: t, eof := false, fail := false, bad := false, skipws := sk } : IStream).ws = { left := (sp1.reverse ++ l0), right := 36 :: t, eof := false, fail := false, bad := false, skipws := sk } := by
+    simpa [IStream.ofBytes] using ws_good l0 sp1 36 t sk h2 (by decide)
+  simp only [attrRead, hpre, peekC_good, ignore1_good]
+  try simp
+
+/-- … and either state of `skipws` -/
+theorem attrRead_missing_at_sk {F} (ops : FloatOps F) (cfg : LexCfg) (lookup : Int → RefLookup) (k : Kind) (nullable : Bool)
+    (l0 sp1 t : List Byte) (sk : Bool) (c : Byte) (h2 : sp1.all isSpace = true) (hc : c = 44 ∨ c = 41) :
+    attrRead ops cfg lookup k nullable ({ left := l0, right := sp1 ++ c :: t, eof := false, fail := false, bad := false, skipws := sk } : IStream) =
+      .ok ⟨if nullable then .null else .incomplete, .unset, { left := (sp1.reverse ++ l0), right := c :: t, eof := false, fail := false, bad := false, skipws := sk }⟩ := by
+  have hcs : isSpace c = false := by rcases hc with rfl | rfl <;> decide
+  have hpre : ({ left := l0, right := sp1 ++ c :: t, eof := false, fail := false, bad := false, skipws := sk } : IStream).ws = { left := (sp1.reverse ++ l0), right := c :: t, eof := false, fail := false, bad := false, skipws := sk } := by
+    simpa [IStream.ofBytes] using ws_good l0 sp1 c t sk h2 hcs
+  have hcond : (c == 36 || c == 44 || c == 41) = true := by rcases hc with rfl | rfl <;> decide
+  have h36 : (c == 36) = false := by rcases hc with rfl | rfl <;> decide
+  simp only [attrRead, hpre, peekC_good, hcond, if_true]
+  simp [h36]
+
+/-- … and either state of `skipws` -/
+theorem attrRead_enumlike_at_sk {F} (ops : FloatOps F) (cfg : LexCfg) (lookup : Int → RefLookup) (k : Kind) (hk : EnumLike k)
+    (nullable : Bool) (l0 sp1 t : List Byte) (sk : Bool) (c : Byte) (h2 : sp1.all isSpace = true) (hc : isSpace c = false)
+    (hcond : (c == 36 || c == 44 || c == 41) = false) :
+    attrRead ops cfg lookup k nullable ({ left := l0, right := sp1 ++ c :: t, eof := false, fail := false, bad := false, skipws := sk } : IStream) =
+      (let q := enumRead cfg k.enumKind nullable { left := (sp1.reverse ++ l0), right := c :: t, eof := false, fail := false, bad := false, skipws := sk } .null
+       let q2 := checkRemainingInput cfg (some attrDelims) q.2.1 q.2.2
+       .ok ⟨q2.2, enumValue k.enumKind q.1, q2.1⟩) := by
+  have hpre : ({ left := l0, right := sp1 ++ c :: t, eof := false, fail := false, bad := false, skipws := sk } : IStream).ws = { left := (sp1.reverse ++ l0), right := c :: t, eof := false, fail := false, bad := false, skipws := sk } := by
+    simpa [IStream.ofBytes] using ws_good l0 sp1 c t sk h2 hc
+  rcases hk with rfl | rfl | ⟨items, rfl⟩ <;> simp only [attrRead, hpre, peekC_good, hcond] <;> rfl
+
 /-- `CheckRemainingInput` never lowers the severity (any stream state) -/
 theorem cri_mono (cfg : LexCfg) (s : IStream) (e : Sev) :
     (checkRemainingInput cfg (some attrDelims) s e).2 = e ∨ ¬ NoErr (checkRemainingInput cfg (some attrDelims) s e).2 := by
@@ -934,6 +970,13 @@ theorem extractFloatText_good (l : List Byte) (c : Byte) (t : List Byte) (hc : i
        { left := (scanFloat l (c :: t)).2.1, right := (scanFloat l (c :: t)).2.2,
          eof := (scanFloat l (c :: t)).2.2.isEmpty, fail := false, bad := false, skipws := true }) := by
   simp [IStream.extractFloatText, IStream.sentry, IStream.good, dropSpaces_nonspace _ _ _ hc]
+
+theorem extractFloatText_good_sk (l : List Byte) (c : Byte) (t : List Byte) (sk : Bool) (hc : isSpace c = false) :
+    IStream.extractFloatText { left := l, right := c :: t, eof := false, fail := false, bad := false, skipws := sk } =
+      (some (scanFloat l (c :: t)).1,
+       { left := (scanFloat l (c :: t)).2.1, right := (scanFloat l (c :: t)).2.2,
+         eof := (scanFloat l (c :: t)).2.2.isEmpty, fail := false, bad := false, skipws := sk }) := by
+  cases sk <;> simp [IStream.extractFloatText, IStream.sentry, IStream.good, dropSpaces_nonspace _ _ _ hc]
 
 /-- what an unset REAL/NUMBER attribute without an error can come from -/
 def UnsetOrigin {F} (ops : FloatOps F) (nullable : Bool) (input : List Byte) : Prop :=
